@@ -104,6 +104,31 @@ def smryMeasure (key : String) : Option String :=
   else if body = "GOR" then some "gas_oil_ratio"
   else none
 
+/-- What each reader field that is fed from a summary vector *means*: the vectors whose value it may
+receive (hand-written specification; producer vector first, injector vectors after). -/
+def fieldMeaning : List (String × List String) :=
+  [("well.oil_rate", ["WOPR", "WOIR"]), ("well.water_rate", ["WWPR", "WWIR"]), ("well.gas_rate", ["WGPR", "WGIR"]),
+   ("well.void_rate", ["WVPR", "WWVIR", "WGVIR", "WOVIR"]), ("well.thp", ["WTHP"]), ("well.flow_bhp", ["WBHP"]),
+   ("well.wct", ["WWCT"]), ("well.gor", ["WGOR"]), ("well.oil_total", ["WOPT"]), ("well.water_total", ["WWPT"]),
+   ("well.gas_total", ["WGPT"]), ("well.void_total", ["WVPT"]), ("well.water_inj_total", ["WWIT"]),
+   ("well.gas_inj_total", ["WGIT"]), ("well.void_inj_total", ["WVIT"]), ("well.hist_oil_total", ["WOPTH"]),
+   ("well.hist_wat_total", ["WWPTH"]), ("well.hist_gas_total", ["WGPTH"]), ("well.hist_water_inj_total", ["WWITH"]),
+   ("well.hist_gas_inj_total", ["WGITH"]), ("well.water_void_rate", ["WWVIR"]), ("well.gas_void_rate", ["WGVIR"]),
+   ("conn.oil_rate", ["COPR", "COIR"]), ("conn.water_rate", ["CWPR", "CWIR"]), ("conn.gas_rate", ["CGPR", "CGIR"]),
+   ("conn.pressure", ["CPR"]), ("conn.resv_rate", ["CVPR", "CVIR"]),
+   ("restoreConnRates:xc.rates.wat", ["CWPR", "CWIR"]), ("restoreConnRates:xc.rates.oil", ["COPR", "COIR"]),
+   ("restoreConnRates:xc.rates.gas", ["CGPR", "CGIR"]), ("restoreConnResults:xc.pressure", ["CPR"]),
+   ("restore_well:xw.rates.wat", ["WWPR", "WWIR"]), ("restore_well:xw.rates.oil", ["WOPR", "WOIR"]),
+   ("restore_well:xw.rates.gas", ["WGPR", "WGIR"]), ("restore_well:xw.guide_rates.Water", ["WWPGR", "WWIGR"]),
+   ("restore_well:xw.guide_rates.Oil", ["WOPGR"]), ("restore_well:xw.guide_rates.Gas", ["WGPGR", "WGIGR"]),
+   ("restore_well:xw.guide_rates.ResV", ["WVPGR"]), ("restore_well:xw.bhp", ["WBHP"]), ("restore_well:xw.thp", ["WTHP"])]
+
+/-- Summary vectors a writer shape copies. -/
+def Pre.smryKeys : Pre → List String
+  | .smry k _ => [k]
+  | .smryPI a b => [a, b]
+  | _ => []
+
 /-- Classes of (writer shape, reader shape) pairs on one slot. -/
 inductive Cls where
   | exact        -- decode (encode x) = x   (REAL arrays: up to the single-precision narrowing)
